@@ -312,24 +312,26 @@ def rule_k6(ctx, F, parts=("rank", "slots", "final", "side")):
 def empties_hashed(ctx, F):
     """Empty squares carry zobrist::EMPTY_PLACE, in the incremental writer and in the importer (published layout)."""
     sp = F.fn("chess::Game::set_position")
-    sym = hir.Sym(hir.Env(sp["hir"], F), F)
+    from .common import set_position_summary
     ok = False
     found = None
-    for n, anc in hir.walk(sp["hir"]["body"]):
-        if n.get("k") == "Assign":
-            r = sym(n["r"])
-            t = hir.fmt(r, 300)
-            if "Piece::hash(" in t:
-                found = t
-                ok = r[0] == "call" and str(r[1]).endswith("unwrap_or") and r[2][-1] == ("const", "chess::zobrist::EMPTY_PLACE")
+    try:
+        sm = set_position_summary(F)
+        pos_name = sm["params"][0]
+        kn, ks = sm["None"]["slot_h"], sm["Some"]["slot_h"]
+        found = {"empty": hir.fmt(kn, 80) if kn else None, "piece P": hir.fmt(ks, 80) if ks else None}
+        ok = kn == ("const", "chess::zobrist::EMPTY_PLACE") and ks == ("call", "chess::piece::Piece::hash", (("var", "P"), ("var", pos_name)))
+    except hir.Unsupported as e:
+        found = "not summarisable: %s" % e
     ctx.check("C04.K5", "empty-square-key:set_position", ok, fn=sp["path"], file=sp["file"],
-              what="an emptied square must contribute zobrist::EMPTY_PLACE (the published combination of key-file entries)",
-              expected="place.map(hash).unwrap_or(EMPTY_PLACE)", found=found)
+              what="an emptied square must contribute zobrist::EMPTY_PLACE (the published combination of key-file entries) and an occupied "
+                   "one the key of its piece on that square",
+              expected="empty -> EMPTY_PLACE, P -> P.hash(position)", found=found)
     nw = F.fn("chess::Game::new")
     nsym = hir.Sym(hir.Env(nw["hir"], F), F)
     n_empty = 0
     for n, anc in hir.walk(nw["hir"]["body"]):
-        if n.get("k") == "Assign" and nsym(n["r"]) == ("const", "chess::zobrist::EMPTY_PLACE"):
+        if n.get("k") == "Assign" and hir.fold(nsym(n["r"]), {}) == ("const", "chess::zobrist::EMPTY_PLACE"):
             l = hir.strip(n["l"])
             if l.get("k") == "Index" and _mentions(nsym(l["e"]), "past_hashes"):
                 n_empty += 1
